@@ -41,7 +41,11 @@ pub fn op(rng: &mut Rng, depth: usize) -> Term {
         _ => {
             let k = rng.below(4);
             let ops: Vec<Term> = (0..k).map(|_| op(rng, depth + 1)).collect();
-            tag("call", vec![tl(ops)])
+            match rng.below(6) {
+                0 => tag("errcall", vec![tl(ops)]),
+                1 => tag("badcall", vec![tl(ops), ti(rng.below(2) as i64)]),
+                _ => tag("call", vec![tl(ops)]),
+            }
         }
     }
 }
@@ -90,12 +94,32 @@ fn command(o: &Term) -> String {
 fn render(ops: &[Term], counter: &mut usize, procs: &mut String) -> String {
     let mut s = String::new();
     for o in ops {
-        if o.nth(0).as_str() == "call" {
+        let kind0 = o.nth(0).as_str();
+        if kind0 == "call" || kind0 == "errcall" || kind0 == "badcall" {
             *counter += 1;
             let name = format!("pr{}", counter);
             let body = render(o.nth(1).as_list(), counter, procs);
-            procs.push_str(&format!("proc {} {{}} {{\n{}}}\n", name, body));
-            s.push_str(&format!("{}\n", name));
+            match kind0 {
+                "call" => {
+                    procs.push_str(&format!("proc {} {{}} {{\n{}}}\n", name, body));
+                    s.push_str(&format!("{}\n", name));
+                }
+                "errcall" => {
+                    // the body ends in an error: the frame must vanish all the same
+                    procs.push_str(&format!("proc {} {{}} {{\n{}error boom\n}}\n", name, body));
+                    s.push_str(&format!("catch {{{}}}\n", name));
+                }
+                _ => {
+                    // wrong number of arguments (one too many / one missing): the body never runs
+                    if o.nth(2).as_int() == 0 {
+                        procs.push_str(&format!("proc {} {{}} {{\n{}}}\n", name, body));
+                        s.push_str(&format!("catch {{{} extra}}\n", name));
+                    } else {
+                        procs.push_str(&format!("proc {} {{needed}} {{\n{}}}\n", name, body));
+                        s.push_str(&format!("catch {{{}}}\n", name));
+                    }
+                }
+            }
         } else {
             *counter += 1;
             let kind = o.nth(0).as_str();
@@ -153,7 +177,7 @@ pub fn gen(tier: &str, seed: u64) -> Gen {
         let ops: Vec<Term> = (0..len).map(|_| op(&mut rng, 0)).collect();
         cases.push(mk(ops));
     }
-    (cases, vec![("random sequences (1-40) of variable operations over 4 names x 3 indices at call depth 0-2".to_string(), n, false)])
+    (cases, vec![("random sequences (1-40) of variable operations over 4 names x 3 indices at call depth 0-2, calls returning normally, by error, or rejected for their argument count".to_string(), n, false)])
 }
 
 pub fn run(case: &Term) -> Term {
